@@ -820,10 +820,25 @@ func findContainingFunc(params *filterParams) *types.Signature {
 	return nil
 }
 
+// isElement reports whether e (parentheses removed) is one of the expressions of list.
+func isElement(list []ast.Expr, e ast.Expr) bool {
+	for _, x := range list {
+		if astutil.Unparen(x) == e {
+			return true
+		}
+	}
+	return false
+}
+
 func findSinkType(params *filterParams, parent ast.Node, kv *ast.KeyValueExpr, e ast.Expr) types.Type {
+	// The children of parent are compared with their parentheses removed.
+	e = astutil.Unparen(e)
 	switch parent := parent.(type) {
 	case *ast.ValueSpec:
-		return params.ctx.Types.TypeOf(parent.Type)
+		// Only an initializer is stored into the declared type (not a declared name, not the type itself).
+		if isElement(parent.Values, e) {
+			return params.ctx.Types.TypeOf(parent.Type)
+		}
 
 	case *ast.ReturnStmt:
 		for i, result := range parent.Results {
